@@ -28,6 +28,20 @@ class ContinueSig(Exception):
     pass
 class Infeasible(Exception):
     pass
+class PathEnd(Exception):
+    """a path that ends inside a loop body checked against its loop contract (the inductive step): its side obligations are the result"""
+    def __init__(self, marker):
+        self.marker = marker
+
+class LoopContract:
+    """loop contract for a `while` loop of the real code (the unbounded route: no unrolling).
+    modifies : names written by the loop -- locals ('precision') and members of *this ('this.me2', 'this.problems.x'); everything else must be unchanged
+               by one execution of the body (checked: the loop's frame condition)
+    invariant: callable(interp, frame) -> list of (label, condition) over the CURRENT state
+    choices  : {name: [values]} for integer/bool-valued modified variables (case split instead of a symbolic index)
+    variant  : optional callable(interp, frame) -> term; must decrease by >= 1 and be >= 0 whenever the body runs to its end (termination)"""
+    def __init__(self, modifies, invariant, choices=None, variant=None, label=''):
+        self.modifies, self.invariant, self.choices, self.variant, self.label = list(modifies), invariant, dict(choices or {}), variant, label
 class Unsupported(EvalError):
     pass
 
@@ -129,6 +143,9 @@ class Interp:
         self.const_axioms = {}
         self.auto_stub = None
         self.domain_events = []
+        self.nonfinite_unknown = False   # True: std::isfinite / allFinite / hasNaN are undetermined (both outcomes explored)
+        self.loop_contracts = {}      # (function qualified name, ordinal of the while loop in the function) -> LoopContract
+        self._loop_ordinals = {}
 
     # ---------------------------------------------------------------- counting must-fire rules
     def fire(self, rule):
@@ -448,6 +465,8 @@ class Interp:
                     results.append((self.sym, v, None))
                 except Thrown as t:
                     results.append((self.sym, None, t))
+                except PathEnd as pe:
+                    results.append((self.sym, pe, None))
                 except Infeasible:
                     pass
             finally:
@@ -996,6 +1015,168 @@ class Interp:
                 return self.globals[key]
         return None
 
+    def concretize_index(self, i, lim):
+        """a symbolic matrix index (e.g. the result of a ternary) is resolved by case split over its range: every feasible value is its own path"""
+        if isinstance(i, int):
+            return i
+        if isinstance(i, Fraction) and i.denominator == 1:
+            return int(i)
+        if self.mode == 'sym' and is_sym(i):
+            self.fire('index-case-split')
+            for k_ in range(lim):
+                if self.decide(z3real(i) == k_):
+                    return k_
+            raise EvalError('matrix index %s outside [0,%d) on a feasible path' % (i, lim))
+        raise Unsupported('symbolic matrix index')
+
+    # ---------------------------------------------------------------- loop contracts
+    def loop_contract_for(self, node):
+        fr = self.frames[-1]
+        fd = fr.fd
+        if fd is None:
+            return None
+        key = id(fd)
+        if key not in self._loop_ordinals:
+            order = []
+            def walk(n):
+                if isinstance(n, Node):
+                    if isinstance(n, While):
+                        order.append(id(n))
+                    if isinstance(n, Lambda):
+                        return
+                    for f in n._fields:
+                        walk(getattr(n, f, None))
+                elif isinstance(n, (list, tuple)):
+                    for x in n:
+                        walk(x)
+            walk(fd.body)
+            self._loop_ordinals[key] = {nid: i for i, nid in enumerate(order)}
+        ordn = self._loop_ordinals[key].get(id(node))
+        if ordn is None:
+            return None
+        qn = fd.qname if isinstance(fd.qname, str) else '::'.join(fd.qname)
+        return self.loop_contracts.get((qn, ordn)) or self.loop_contracts.get((qn.split('::')[-1], ordn))
+
+    def _loop_cell(self, fr, name):
+        """(getter, setter) of a modified location: local variable or (nested) member of *this"""
+        if name.startswith('this.'):
+            parts = name.split('.')[1:]
+            o = fr.this
+            for pth in parts[:-1]:
+                o = o.f[pth]
+            last = parts[-1]
+            if last not in o.f:
+                raise EvalError('loop contract: no member %s' % name)
+            return (lambda: o.f[last]), (lambda v: o.f.__setitem__(last, v))
+        c = fr.lookup(name)
+        if c is None:
+            raise EvalError('loop contract: no local variable %s at the loop head' % name)
+        return (lambda: c.v), (lambda v: setattr(c, 'v', v))
+
+    def _fresh_like(self, v, name, lc):
+        tag = 'loop!%s!%d' % (name.replace('this.', ''), next(self.sym.fresh))
+        if name in lc.choices:
+            vals = list(lc.choices[name])
+            for cand in vals[:-1]:
+                if self.decide(UnknownBool()):
+                    return cand
+            return vals[-1]
+        if isinstance(v, bool):
+            return self.decide(UnknownBool())
+        if isinstance(v, Mat):
+            def el(i, j, old):
+                if isinstance(old, Cx) or v.cplx:
+                    return Cx(z3.Real('%s(%d,%d).re' % (tag, i, j)), z3.Real('%s(%d,%d).im' % (tag, i, j)))
+                return z3.Real('%s(%d,%d)' % (tag, i, j))
+            return Mat(v.r, v.c, [[el(i, j, v.d[i][j]) for j in range(v.c)] for i in range(v.r)], v.kind, v.cplx)
+        if isinstance(v, Cx):
+            return Cx(z3.Real(tag + '.re'), z3.Real(tag + '.im'))
+        if isinstance(v, int) and not isinstance(v, bool):
+            return z3.Real(tag)          # loop counters: an arbitrary value (constrained by the invariant)
+        if is_sym(v) or isinstance(v, (Fraction, float)):
+            return z3.Real(tag)
+        raise EvalError('loop contract: cannot havoc %s of type %s' % (name, type(v).__name__))
+
+    def _loop_snapshot(self, fr):
+        snap = {}
+        for sc in fr.scopes:
+            for n, c in sc.items():
+                if isinstance(c, Cell):
+                    snap[n] = deep_copy(c.v)
+        def rec(o, prefix):
+            for n, v in o.f.items():
+                if isinstance(v, Obj):
+                    rec(v, prefix + n + '.')
+                else:
+                    snap[prefix + n] = deep_copy(v)
+        if isinstance(fr.this, Obj):
+            rec(fr.this, 'this.')
+        return snap
+
+    @staticmethod
+    def _same_value(a, b):
+        if isinstance(a, Mat) and isinstance(b, Mat):
+            return (a.r, a.c) == (b.r, b.c) and all(Interp._same_value(x, y) for x, y in zip(a.elems(), b.elems()))
+        if isinstance(a, Cx) or isinstance(b, Cx):
+            a, b = cx(a), cx(b)
+            return Interp._same_value(a.re, b.re) and Interp._same_value(a.im, b.im)
+        if is_sym(a) or is_sym(b):
+            try:
+                return z3.eq(z3.simplify(z3real(a)), z3.simplify(z3real(b)))
+            except Exception:
+                return False
+        if isinstance(a, list) and isinstance(b, list):
+            return len(a) == len(b) and all(Interp._same_value(x, y) for x, y in zip(a, b))
+        try:
+            return a == b
+        except Exception:
+            return a is b
+
+    def exec_while_contract(self, s, lc):
+        """Hoare rule for while: invariant on entry; then from an ARBITRARY state satisfying the invariant either the condition is false (execution
+        continues after the loop) or the body runs once and must re-establish the invariant (that path ends there); break/return leave from the
+        arbitrary state.  Sound for any number of iterations; the frame condition (only `modifies` changes) is checked on the body."""
+        fr = self.frames[-1]
+        where = '%s:%d' % (self.cur_file(), s.line or self.cur_line)
+        self.fire('loop-contract')
+        for label, cond in lc.invariant(self, fr):
+            self.side(cond, 'loop invariant "%s" holds on entry at %s' % (label, where))
+        for name in lc.modifies:
+            get, put = self._loop_cell(fr, name)
+            put(self._fresh_like(get(), name, lc))
+        for label, cond in lc.invariant(self, fr):
+            if isinstance(cond, bool):
+                if not cond:
+                    raise Infeasible()
+                continue
+            self.sym.pc.append(cond)
+        if not self.feasible(z3.BoolVal(True)):
+            raise Infeasible()
+        before = self._loop_snapshot(fr)
+        v0 = lc.variant(self, fr) if lc.variant else None
+        if not self.decide(self.ev(s.c)):
+            return                      # loop exit from an arbitrary invariant state
+        try:
+            self.exec_scoped(s.body)
+        except BreakSig:
+            self._loop_frame_check(fr, lc, before, where)
+            return                      # break: continue after the loop with the state reached
+        except ContinueSig:
+            pass
+        self._loop_frame_check(fr, lc, before, where)
+        for label, cond in lc.invariant(self, fr):
+            self.side(cond, 'loop invariant "%s" preserved by the body at %s' % (label, where))
+        if v0 is not None:
+            v1 = lc.variant(self, fr)
+            self.side(z3.And(z3real(v1) <= z3real(v0) - 1, z3real(v0) >= 0), 'loop variant decreases and is bounded below at %s' % where)
+        raise PathEnd('loop body checked at %s' % where)
+
+    def _loop_frame_check(self, fr, lc, before, where):
+        after = self._loop_snapshot(fr)
+        for n, v in after.items():
+            if n in before and n not in lc.modifies and not self._same_value(before[n], v):
+                self.side(False, 'loop frame: %s is modified by the body at %s but is not in the contract\'s modifies set' % (n, where))
+
     # ---------------------------------------------------------------- statements
     def exec_block(self, b, new_scope=True):
         fr = self.frames[-1]
@@ -1065,6 +1246,9 @@ class Interp:
                 fr.pop()
             return
         if k is While:
+            lc = self.loop_contract_for(s) if self.mode == 'sym' and self.loop_contracts else None
+            if lc is not None:
+                return self.exec_while_contract(s, lc)
             n = 0
             while self.decide(self.ev(s.c)):
                 try:
@@ -1654,8 +1838,7 @@ class Interp:
                     target = None
                 if isinstance(target, Mat):
                     idx = [self.ev(a) for a in e.args]
-                    if not all(isinstance(i, int) for i in idx):
-                        raise Unsupported('symbolic matrix index')
+                    idx = [self.concretize_index(i, (target.r if k_ == 0 else target.c) if len(idx) == 2 else target.r * target.c) for k_, i in enumerate(idx)]
                     i = idx[0]
                     j = idx[1] if len(idx) > 1 else None
                     return (lambda: target.get(i, j)), (lambda v: target.set(i, j, v))
@@ -1847,8 +2030,7 @@ class Interp:
 
     def call_value(self, v, args):
         if isinstance(v, Mat):
-            if not all(isinstance(i, int) for i in args):
-                raise Unsupported('symbolic matrix index')
+            args = [self.concretize_index(i, (v.r if k_ == 0 else v.c) if len(args) == 2 else v.r * v.c) for k_, i in enumerate(args)]
             for k, i in enumerate(args):
                 lim = (v.r if k == 0 else v.c) if len(args) == 2 else v.r * v.c
                 if not (0 <= i < lim):
@@ -2115,10 +2297,14 @@ class Interp:
         if name == 'allFinite':
             if self.mode == 'float':
                 return all(math.isfinite(x) for x in m.elems())
+            if self.nonfinite_unknown:
+                return self.decide(UnknownBool())
             return True
         if name == 'hasNaN':
             if self.mode == 'float':
                 return any(x != x for x in m.elems())
+            if self.nonfinite_unknown:
+                return self.decide(UnknownBool())
             return False
         if name == 'determinant':
             d = m.d
@@ -2320,6 +2506,9 @@ class Interp:
                 x = a[0]
                 return {'isfinite': math.isfinite, 'isnan': math.isnan, 'isinf': math.isinf}[nm](float(x))
             self.fire('real-' + nm)
+            if self.nonfinite_unknown and self.mode == 'sym':
+                # the real-arithmetic abstraction has no NaN/Inf: explore both outcomes of the finiteness test
+                return self.decide(UnknownBool())
             return nm == 'isfinite'
         if s in ('std::real', 'std::imag', 'std::conj', 'std::norm', 'std::arg', 'std::polar', 'Re', 'Im', 'Conj'):
             a = A()
